@@ -349,3 +349,204 @@ Lemma accepted_index_means v nv pf keys i :
   exists k, nth_error keys i = Some k /\ nv_inrange nv k = true /\ nv_stored nv k = false /\
             (v = 1 -> nv_inflight nv k = false) /\ (v = 0 -> nv_queue_room nv = true) /\ pf = true.
 Proof. intros Hv H. apply (flags_sound v nv pf keys i Hv). exact (positions_of_true _ 0 i H). Qed.
+
+(* ======================================================================================================================
+   FINDCONTENT across both nodes and the content lookup (Model/EndToEnd.v, second part) *)
+From Shisui Require Import Gen.K_handlers Gen.K_table Model.Handlers Model.Lookup Proofs.Handlers Proofs.Gossip Proofs.FindContent
+     Proofs.Lookup.
+
+Lemma content_code_byte : b2n (n2b K_msg_CONTENT) = K_msg_CONTENT. Proof. reflexivity. Qed.
+Lemma sel_raw_byte : b2n (n2b K_sel_Raw) = K_sel_Raw. Proof. reflexivity. Qed.
+Lemma sel_connid_byte : b2n (n2b K_sel_ConnId) = K_sel_ConnId. Proof. reflexivity. Qed.
+Lemma sel_enrs_byte : b2n (n2b K_sel_Enrs) = K_sel_Enrs. Proof. reflexivity. Qed.
+
+(* (a) held content, honest transport: the requester obtains exactly the stored bytes - inline when they fit one packet,
+   over uTP otherwise - for ANY version value both sides use (0: unframed, 1: varint-framed, C15) *)
+Theorem findcontent_end_to_end nodelist srt server requester content v connid enrs_ssz deliver :
+  nlen connid = 2 -> short content ->
+  deliver (encode_utp_content v content) = encode_utp_content v content ->
+  find_content_exchange nodelist srt server requester (St_Found content) (Ok v) (Ok v) connid enrs_ssz deliver =
+    Ok (FR_Content content (negb (nlen content <=? findcontent_max_payload))).
+Proof.
+  intros Hc Hs Hd. unfold find_content_exchange, serve_find_content. rewrite handle_find_content_found.
+  destruct (N.leb_spec (nlen content) findcontent_max_payload) as [Hle|Hgt]; cbn [bind negb content_reply_bytes reply_records].
+  - unfold request_find_content.
+    rewrite (process_content_raw _ _ content _ server content_code_byte sel_raw_byte) by (destruct max_payload_value; lia).
+    reflexivity.
+  - unfold request_find_content.
+    rewrite (process_content_connid _ _ connid _ server content_code_byte sel_connid_byte Hc). cbn [bind].
+    rewrite Hd, (utp_roundtrip v content Hs). reflexivity.
+Qed.
+
+(* the inline branch does not touch the transport at all *)
+Theorem findcontent_inline_any_transport nodelist srt server requester content vs vr connid enrs_ssz deliver :
+  nlen content <= findcontent_max_payload ->
+  find_content_exchange nodelist srt server requester (St_Found content) vs vr connid enrs_ssz deliver = Ok (FR_Content content false).
+Proof.
+  intros Hle. unfold find_content_exchange, serve_find_content. rewrite handle_find_content_found.
+  replace (nlen content <=? findcontent_max_payload) with true by lia. cbn [bind content_reply_bytes reply_records].
+  unfold request_find_content.
+  rewrite (process_content_raw _ _ content _ server content_code_byte sel_raw_byte) by (destruct max_payload_value; lia).
+  reflexivity.
+Qed.
+
+(* with the versions the two nodes derive from each other's record on first contact (C19) *)
+Theorem findcontent_end_to_end_negotiated va vb cx cy nx ny nodelist srt server requester content connid enrs_ssz deliver v :
+  cx ny = None -> cy nx = None -> version_at_receiver va vb cy nx = Ok v ->
+  nlen connid = 2 -> short content -> (forall w, deliver w = w) ->
+  find_content_exchange nodelist srt server requester (St_Found content)
+      (version_at_offerer va vb cx ny) (version_at_receiver va vb cy nx) connid enrs_ssz deliver =
+    Ok (FR_Content content (negb (nlen content <=? findcontent_max_payload))).
+Proof.
+  intros Hx Hy Hr Hc Hs Hd. unfold version_at_receiver, version_at_offerer in *.
+  destruct (two_nodes_compose va vb cx cy nx ny Hx Hy) as (Heq & _). rewrite Heq, Hr.
+  apply findcontent_end_to_end; auto.
+Qed.
+
+(* (c) not held: the server's list (C08) through the requester's filter (C11) *)
+Lemma filter_nodes_aux_subseq sender dists enrs : forall seen, subseq (filter_nodes_aux sender enrs dists seen) enrs.
+Proof.
+  induction enrs as [|r rest IH]; intros seen; cbn [filter_nodes_aux]; [constructor|].
+  destruct (verify_response_node sender r dists seen) as [n|e|] eqn:E.
+  - apply verify_response_node_ok in E. subst n. constructor. apply IH.
+  - constructor. apply IH.
+  - constructor. apply IH.
+Qed.
+
+Lemma subseq_sorted cid a l : subseq a l -> sorted_by_b cid l = true -> sorted_by_b cid a = true.
+Proof.
+  induction 1 as [l|x a l Hs IH|x a l Hs IH]; intros Hl; [reflexivity| |].
+  - apply sorted_by_b_cons.
+    + intros y Hy. apply (sorted_by_b_hd cid x l Hl). exact (subseq_in _ _ Hs y Hy).
+    + apply IH. exact (sorted_by_b_tl cid x l Hl).
+  - apply IH. exact (sorted_by_b_tl cid x l Hl).
+Qed.
+
+Theorem findcontent_enrs_end_to_end cid srt : is_sort cid srt ->
+  forall nodelist server requester vs vr connid enrs_ssz deliver, NoDup (map rid nodelist) ->
+  exists enrs accepted,
+    handle_find_content nodelist srt (rid requester) St_NotFound = Ok (FC_Enrs enrs) /\
+    find_content_exchange nodelist srt server requester St_NotFound vs vr connid enrs_ssz deliver = Ok (FR_Nodes accepted) /\
+    accepted = filter_nodes server enrs None /\
+    (* a sub-list, in the server's order, of the server's reply, which is taken from the 32 table entries nearest the content *)
+    subseq accepted enrs /\ nlen enrs <= 32 /\
+    sorted_by_b cid accepted = true /\
+    NoDup (map rid accepted) /\
+    forall r, In r accepted ->
+      In r nodelist /\ In r (firstn 32 (srt nodelist)) /\ rid r <> rid requester /\
+      rvalid r = true /\ relay_ok (rflags server) (rflags r) = true /\ 1024 < rport r.
+Proof.
+  intros Hsort nodelist server requester vs vr connid enrs_ssz deliver Hnd.
+  destruct (handle_find_content_not_found cid srt Hsort nodelist (rid requester) Hnd) as (enrs & He & Hn & Hsorted & Hall).
+  exists enrs, (filter_nodes server enrs None). split; [exact He|]. split.
+  { unfold find_content_exchange, serve_find_content. rewrite He. cbn [bind content_reply_bytes reply_records].
+    unfold request_find_content. rewrite (process_content_enrs _ _ enrs_ssz enrs server content_code_byte sel_enrs_byte). reflexivity. }
+  split; [reflexivity|].
+  assert (Hsub : subseq (filter_nodes server enrs None) enrs) by apply filter_nodes_aux_subseq.
+  split; [exact Hsub|]. split; [exact Hn|]. split; [exact (subseq_sorted cid _ _ Hsub Hsorted)|].
+  split; [apply asker_no_repeats|].
+  intros r Hr. destruct (asker_accepts_sound server enrs None r Hr) as (Hin & Hv & Hrel & Hport & _).
+  destruct (Hall r Hin) as (H1 & H2 & H3 & _). repeat split; assumption.
+Qed.
+
+(* (b) arbitrary peers.  ContentLookup's result is the processed answer of one of the queried peers - nothing more (C10) *)
+Theorem lookup_result_is_a_peer_answer target self tbl U ver resp dec_enrs sender stream s c :
+  let cans := fun p => peer_answer ver (resp p) (dec_enrs p) (sender p) (stream p) in
+  incl tbl U -> (forall p x, In (Some x) (cnodes cans p) -> In x U) ->
+  creachable (xkey target) cans tbl self s -> finished (xkey target) tbl (base s) ->
+  content_result s = Some c ->
+  exists p utp, In p (qlog (base s)) /\
+    request_find_content ver (resp p) (dec_enrs p) (sender p) (stream p) = Ok (FR_Content c utp).
+Proof.
+  intros cans H1 H2 Hr Hf Hc.
+  destruct (content_first_wins (xkey target) (xkey_inj target) self tbl cans U H1 H2 s Hr Hf) as [Hs _].
+  destruct (Hs c Hc) as (p & Hq & Hp). exists p. unfold cans, peer_answer in Hp.
+  destruct (request_find_content ver (resp p) (dec_enrs p) (sender p) (stream p)) as [[c' utp|ns]| |]; try discriminate.
+  inversion Hp; subst. now exists utp.
+Qed.
+
+(* the history network's getters validate what the lookup returned BEFORE they decode, store or return it: over ANY lookup
+   state (any peers, any transport, any schedule) they return and store only content bound to the requested hash *)
+Theorem getters_over_lookup_bound B A src s0 hash (s : cl) : store_ok (lib_of B A) s0 ->
+  (forall r s' p, history_get_header B A src (lookup_of s) s0 hash = (r, s', p) ->
+     store_ok (lib_of B A) s' /\ Forall (gp (lib_of B A)) p /\
+     forall h, r = Ok h -> exists c, genuine (lib_of B A) (x00 :: hash) c /\ hdr_of (lib_of B A) c = Some h) /\
+  (forall r s' p, history_get_body B A src (lookup_of s) s0 hash = (r, s', p) ->
+     store_ok (lib_of B A) s' /\ Forall (gp (lib_of B A)) p /\
+     forall b, r = Ok b -> exists c, genuine (lib_of B A) (x01 :: hash) c /\ hl_dec_body B c = Some b) /\
+  (forall r s' p, history_get_receipts B A src (lookup_of s) s0 hash = (r, s', p) ->
+     store_ok (lib_of B A) s' /\ Forall (gp (lib_of B A)) p /\
+     forall x, r = Ok x -> exists c, genuine (lib_of B A) (x02 :: hash) c /\ hl_dec_receipts B c = Some x).
+Proof.
+  intros Hs. split; [|split]; intros r s' p H.
+  - exact (history_get_header_bound B A src (lookup_of s) s0 hash r s' p H Hs).
+  - exact (history_get_body_bound B A src (lookup_of s) s0 hash r s' p H Hs).
+  - exact (history_get_receipts_bound B A src (lookup_of s) s0 hash r s' p H Hs).
+Qed.
+
+(* first answer wins, validated or not: when the lookup's result fails validation the getter fails, whatever other peers hold *)
+Theorem getter_fails_on_bad_first_answer B A src s0 hash (s : cl) c :
+  History.store_get s0 (x00 :: hash) = None -> content_result s = Some c ->
+  history_validate B A src (x00 :: hash) c <> Ok tt ->
+  hacc_ok A ->
+  history_get_header B A src (lookup_of s) s0 hash = (Err E_LOOKUP, s0, []).
+Proof.
+  intros Hg Hc Hv Hok. unfold history_get_header, get_block_header, getter, lookup_of. rewrite Hg, Hc.
+  fold (history_validate B A src (x00 :: hash) c).
+  pose proof (history_validate_total B A src (x00 :: hash) c Hok) as Hnp.
+  destruct (history_validate B A src (x00 :: hash) c) as [[]|e|]; [congruence|reflexivity|congruence].
+Qed.
+
+(* the JSON-RPC path returns the lookup's result as it is *)
+Theorem api_get_content_is_lookup_result s : api_get_content None s = content_result s.
+Proof. reflexivity. Qed.
+
+(* a concrete drained content lookup: target 0, local node 100, table [5]; peer 5 answers with content c, whatever c is.
+   The states are those of ContentLookup: table seeded, peer 5 asked, its worker publishes and cancels, its reply is received,
+   startQueries returns false. *)
+Definition w_cans (c : bytes) : N -> canswer := fun p => if N.eqb p 5 then AContent c else AError.
+Definition w_b1 : lk := mkLk [100] [] [] [] (Some [5]) 1 true [].
+Definition w_b2 : lk := mkLk [100] [5] [5] [] None 0 true [].
+Definition w_b3 : lk := mkLk [5; 100] [5] [5] [5] None 1 true [5].
+Definition w_b4 : lk := mkLk [5; 100] [5] [5] [] None 0 true [5].
+Definition w_final (c : bytes) : cl := mkCl w_b4 [5] (Some c) true.
+
+Lemma w_lookup_run c :
+  creachable (xkey 0) (w_cans c) [5] 100 (w_final c) /\ finished (xkey 0) [5] (base (w_final c)) /\
+  content_result (w_final c) = Some c.
+Proof.
+  split; [|split; [exists w_b4; vm_compute; reflexivity | reflexivity]].
+  unfold creachable.
+  assert (E1 : cstep (xkey 0) (w_cans c) [5] (cinit 100) (mkCl w_b1 [] None false)).
+  { apply (CStart (xkey 0) (w_cans c) [5] (cinit 100) w_b1 true); [vm_compute; reflexivity | discriminate]. }
+  assert (E2 : cstep (xkey 0) (w_cans c) [5] (mkCl w_b1 [] None false) (mkCl w_b2 [] None false)).
+  { apply (CTbl (xkey 0) (w_cans c) [5] (mkCl w_b1 [] None false) w_b2). vm_compute; reflexivity. }
+  assert (E3 : cstep (xkey 0) (w_cans c) [5] (mkCl w_b2 [] None false) (mkCl w_b3 [] None false)).
+  { apply (CStart (xkey 0) (w_cans c) [5] (mkCl w_b2 [] None false) w_b3 true); [vm_compute; reflexivity | discriminate]. }
+  assert (E4 : cstep (xkey 0) (w_cans c) [5] (mkCl w_b3 [] None false) (mkCl w_b3 [5] (Some c) true)).
+  { apply (CWork (xkey 0) (w_cans c) [5] (mkCl w_b3 [] None false) 5); [left; reflexivity | intros []]. }
+  assert (E5 : cstep (xkey 0) (w_cans c) [5] (mkCl w_b3 [5] (Some c) true) (w_final c)).
+  { apply (CRep (xkey 0) (w_cans c) [5] (mkCl w_b3 [5] (Some c) true) 5 w_b4); [left; reflexivity | left; reflexivity | vm_compute; reflexivity]. }
+  exact (csteps_S _ _ _ _ _ _ (csteps_S _ _ _ _ _ _ (csteps_S _ _ _ _ _ _ (csteps_S _ _ _ _ _ _ (csteps_S _ _ _ _ _ _ (csteps_O _ _ _ _) E1) E2) E3) E4) E5).
+Qed.
+
+(* hence: the JSON-RPC GetContent path (and the beacon network's getContent) hands its caller whatever ONE queried peer
+   answered - for every byte string c there is a lookup (one lying peer suffices) that makes it return c.  In particular
+   non-genuine content: with the library instance of the Examples, a header key and 3 bytes of content. *)
+Theorem api_get_content_unvalidated c :
+  exists cans tbl self s, creachable (xkey 0) cans tbl self s /\ finished (xkey 0) tbl (base s) /\
+                          api_get_content None s = Some c.
+Proof. exists (w_cans c), [5], 100, (w_final c). destruct (w_lookup_run c) as (H1 & H2 & H3). auto. Qed.
+
+Theorem api_get_content_not_genuine_refuted :
+  exists cans tbl self s c, creachable (xkey 0) cans tbl self s /\ finished (xkey 0) tbl (base s) /\
+    api_get_content None s = Some c /\ ~ genuine (lib_of ex_hlib ex_hacc) ex_header_key c /\
+    (* while the network getter refuses the same lookup result *)
+    fst (fst (history_get_header ex_hlib ex_hacc ex_src (lookup_of s) [] (tl ex_header_key))) = Err E_LOOKUP.
+Proof.
+  exists (w_cans [x01; x02; x03]), [5], 100, (w_final [x01; x02; x03]), [x01; x02; x03].
+  destruct (w_lookup_run [x01; x02; x03]) as (H1 & H2 & H3). split; [exact H1|]. split; [exact H2|]. split; [exact H3|].
+  split; [|vm_compute; reflexivity].
+  unfold ex_header_key. cbn [genuine]. change (Byte.eqb x00 x00) with true. cbv iota.
+  intros (hb & proof & h & Hd & _). cbn in Hd. discriminate Hd.
+Qed.
